@@ -137,6 +137,13 @@ func updateHIDIConfiguration() error {
 	// update factory configs
 	err = fs.WalkDir(templateConfig, configDir+"/factory", func(path string, entry fs.DirEntry, err error) error {
 		if entry.IsDir() {
+			// a factory directory is a directory of its own: a symbolic link in its place (into the user's tree, or to a target
+			// that is gone) would make everything below be written somewhere else, or not at all
+			if info, lerr := os.Lstat(path); lerr == nil && info.Mode()&os.ModeSymlink != 0 {
+				if err := os.Remove(path); err != nil {
+					return fmt.Errorf("cannot replace \"%s\" link: %w", path, err)
+				}
+			}
 			_, err := os.Stat(path)
 			if err == nil {
 				return nil
